@@ -50,14 +50,17 @@ def make_cases(rng, tier, n):
             elif st == "extra":
                 # an unrelated file next to the artifact, possibly with a name a temp-file scheme would pick
                 ops.append(("write", f[1] + rng.choice([b".extra", b".tmp", b".tmp", b".new", b".part", b"~", b".bak"]), "g:%d:9" % rng.randrange(100)))
-        if dirs_in and rng.random() < 0.3:
+        if dirs_in and (rng.random() < 0.3 or i % 6 == 1):
             d = rng.choice(dirs_in)[1]
-            ops.append(("write", d, "g:1:5"))        # a file where a directory is expected
+            if i % 6 == 1:
+                ops.append(("fdirlink", d))              # a link to an existing directory OUTSIDE the project where a directory is expected
+            else:
+                ops.append(("write", d, "g:1:5"))        # a file where a directory is expected
             chosen[d] = "file_in_way_dir"
             stats["state_file_in_way_dir"] = stats.get("state_file_in_way_dir", 0) + 1
         if rng.random() < 0.3:
             p, fl, sp = rng.choice(arts)
-            how = rng.choice(["file", "dangling", "foreign", "fifo"])
+            how = rng.choice(["file", "dangling", "foreign", "fifo"] + (["foreign_dir", "foreign_dir"] if "d" in fl else []))
             ops.append(("rm", p))
             if how == "file":
                 ops.append(("write", p, "g:2:6"))        # a file where the artifact should be
@@ -65,6 +68,8 @@ def make_cases(rng, tier, n):
                 ops.append(("flink", p, 0))             # e.g. a link to an unmounted disk
             elif how == "foreign":
                 ops.append(("flink", p, 1))
+            elif how == "foreign_dir":
+                ops.append(("fdirlink", p))             # the artifact's directory is a link to a directory elsewhere
             else:
                 ops.append(("fifo", p))
             chosen[p] = "art_root_" + how
